@@ -57,8 +57,11 @@ Record cfg := mkCfg {
 Definition default_cfg : cfg :=
   mkCfg DEFAULT_MAX_SUBSCR_DURATION_TICKS MAX_NOTIFY_ERRORS HOUSEKEEPING_GRACE_TICKS true.
 
-(* SoapClientPool: netloc -> (user subscriptions, "client has a connection error and is closed") *)
-Definition pool := list (Z * (list Z * bool)).
+(* SoapClientPool: netloc -> (user subscriptions, state of the pooled SoapClient):
+   0 = not connected (fresh, or the last connect attempt failed), 1 = connected,
+   2 = closed after a connection error: SoapClient never reconnects, every later post fails at once.
+   The async client (SoapClientAsync) has no such memory: its state stays 0. *)
+Definition pool := list (Z * (list Z * Z)).
 
 Record state := mkState {
   st_now : Z;
@@ -69,7 +72,15 @@ Record state := mkState {
 
 Definition init : state := mkState 0 0 [] [].
 
-Inductive outcome := OOk | OHttp | ORefuse | OTimeout.
+(* what happens to an exchange with a subscriber endpoint:
+   OOk          answered 2xx, empty body (or a SOAP envelope)
+   OHttp        answered with an HTTP error status (any body) or a SOAP fault     -> HTTPReturnCodeError
+   ORefuse      the peer is down: connect refused / the established connection breaks while sending
+   OConnTimeout the peer is unreachable: connect times out / no answer on the established connection
+   OTimeout     the peer accepts the request and never answers (socket / asyncio timeout)
+   OReset       the peer drops the connection instead of answering
+   OGarbage     answered 2xx with a body that is not XML                          -> XMLSyntaxError *)
+Inductive outcome := OOk | OHttp | ORefuse | OTimeout | OReset | OConnTimeout | OGarbage.
 Inductive ident := Id (k : Z) | Bogus.
 
 Record subreq := mkReq {
@@ -130,13 +141,13 @@ Definition grant (c : cfg) (req : option Z) : Z :=
   match req with Some d => Z.min d (c_maxd c) | None => c_maxd c end.
 
 (* ------------------------------------------------------------------ soap client pool *)
-Fixpoint pfind (n : Z) (p : pool) : option (list Z * bool) :=
+Fixpoint pfind (n : Z) (p : pool) : option (list Z * Z) :=
   match p with
   | [] => None
   | (m, e) :: r => if m =? n then Some e else pfind n r
   end.
 
-Fixpoint pset (n : Z) (e : list Z * bool) (p : pool) : pool :=
+Fixpoint pset (n : Z) (e : list Z * Z) (p : pool) : pool :=
   match p with
   | [] => [(n, e)]
   | (m, e0) :: r => if m =? n then (m, e) :: r else (m, e0) :: pset n e r
@@ -156,26 +167,37 @@ Fixpoint zremove1 (u : Z) (l : list Z) : list Z :=
   | x :: r => if x =? u then r else x :: zremove1 u r
   end.
 
-(* get_soap_client(netloc, _, usr); returns the pool and whether the client found/created is dead *)
-Definition pool_get (p : pool) (n u : Z) : pool * bool :=
+(* get_soap_client(netloc, _, usr); returns the pool and the state of the client found/created *)
+Definition pool_get (p : pool) (n u : Z) : pool * Z :=
   match pfind n p with
-  | None => (pset n ([u], false) p, false)
+  | None => (pset n ([u], 0) p, 0)
   | Some (us, d) => (pset n (if zmem u us then us else (us ++ [u])%list, d) p, d)
   end.
 
-(* post_message_to on the pooled client of netloc n: (pool, success) *)
-Definition post (p : pool) (n u : Z) (o : outcome) : pool * bool :=
-  let '(p1, dead) := pool_get p n u in
-  if dead then (p1, false)
+(* the manager serves its receivers one by one without the table lock and uses SoapClient (sync) /
+   holds the lock throughout and uses SoapClientAsync (async); the same switch as the Filter/@Dialect
+   check: all are properties of the manager class *)
+Definition c_sync (c : cfg) : bool := c_dialect c.
+
+(* one exchange on a client in state d: (new state, delivered).  EVERY outcome but OOk is a failed delivery. *)
+Definition exchange_state (sync : bool) (d : Z) (o : outcome) : Z * bool :=
+  if negb sync then (d, match o with OOk => true | _ => false end)
+  else if d =? 2 then (2, false)
   else match o with
-       | OOk => (p1, true)
-       | OHttp => (p1, false)
-       | ORefuse | OTimeout =>
-           match pfind n p1 with
-           | Some (us, _) => (pset n (us, true) p1, false)
-           | None => (p1, false)
-           end
+       | OOk => (1, true)
+       | OHttp | OGarbage => (1, false)
+       | ORefuse | OConnTimeout => (if d =? 0 then 0 else 2, false)    (* connect() fails / the open connection breaks *)
+       | OTimeout | OReset => (2, false)
        end.
+
+Definition set_state (p : pool) (n d : Z) : pool :=
+  match pfind n p with Some (us, _) => pset n (us, d) p | None => p end.
+
+(* post_message_to on the pooled client of netloc n: (pool, success) *)
+Definition post (c : cfg) (p : pool) (n u : Z) (o : outcome) : pool * bool :=
+  let '(p1, d) := pool_get p n u in
+  let '(d', ok) := exchange_state (c_sync c) d o in
+  (set_state p1 n d', ok).
 
 (* forget_usr(netloc, usr) *)
 Definition forget (p : pool) (n u : Z) : pool :=
@@ -206,7 +228,7 @@ Fixpoint send_all (c : cfg) (now : Z) (a : string) (outs : list outcome) (tbl : 
   | [] => ([], p, [])
   | s :: r =>
       if matches (s_filter s) a && deliverable c s now then
-        let '(p1, ok) := post p (s_notify s) (s_id s) (outcome_at outs (s_notify s)) in
+        let '(p1, ok) := post c p (s_notify s) (s_id s) (outcome_at outs (s_notify s)) in
         let s' := if ok then set_errors s 0 else set_errors s (s_errors s + 1) in
         let '(r', p2, ms) := send_all c now a outs r p1 in
         (s' :: r', p2, Notify (s_id s) a (s_notify s) :: ms)
@@ -332,13 +354,13 @@ Fixpoint zinsert (x : Z) (l : list Z) : list Z :=
   end.
 Definition zsort (l : list Z) : list Z := fold_right zinsert [] l.
 
-Definition pool_view (nsinks : nat) (p : pool) : list (option (list Z * bool)) :=
+Definition pool_view (nsinks : nat) (p : pool) : list (option (list Z * Z)) :=
   map (fun n => match pfind (Z.of_nat n) p with
                 | Some (us, d) => Some (zsort us, d)
                 | None => None
                 end) (seq 0 nsinks).
 
-Definition obs := (resp * list msg * list (Z * Z * Z * bool * bool * bool) * list (option (list Z * bool)))%type.
+Definition obs := (resp * list msg * list (Z * Z * Z * bool * bool * bool) * list (option (list Z * Z)))%type.
 
 Fixpoint run_obs (c : cfg) (nsinks : nat) (st : state) (ops : list op) : list obs :=
   match ops with
@@ -376,7 +398,7 @@ Definition view_eqb (a b : Z * Z * Z * bool * bool * bool) : bool :=
 Definition obs_eqb (a b : obs) : bool :=
   let '(r, ms, t, p) := a in let '(r', ms', t', p') := b in
   resp_eqb r r' && list_eqb msg_eqb ms ms' && list_eqb view_eqb t t' &&
-  list_eqb (option_eqb (prod_eqb zl_eqb Bool.eqb)) p p'.
+  list_eqb (option_eqb (prod_eqb zl_eqb Z.eqb)) p p'.
 
 Definition trace_eqb : list obs -> list obs -> bool := list_eqb obs_eqb.
 
